@@ -28,7 +28,7 @@ def depth_coord(name, dim, K, down, deepfirst, attr, bounds, same_name_dim=False
             "bounds": [[v - 2, v + 3] for v in vals] if bounds else []}
 
 
-def make_world(conv: str, rng: random.Random, *, two: bool, K: int, twin: bool = False) -> dict:
+def make_world(conv: str, rng: random.Random, *, two: bool, K: int, twin: bool = False, sediment: bool | None = None) -> dict:
     if conv == "ugrid":
         w = GW.mesh_world(W.mesh_from_squares([["Q", "A"], ["B", "N"]]), enc={"base": 0, "fill": "intfill"})
     elif conv == "cf1d":
@@ -38,7 +38,9 @@ def make_world(conv: str, rng: random.Random, *, two: bool, K: int, twin: bool =
     names = DEPTH_NAMES.get(conv, GENERIC_NAMES)
     depths = []
     # (SHOC standard files with sediment layers carry four depth coordinates; data variables sit on the first two)
-    for k, (name, dim) in enumerate(names[: (len(names) if (two and conv == "shoc_standard" and K % 2 == 0) else 2 if two else 1)]):
+    if sediment is None:
+        sediment = K % 2 == 0
+    for k, (name, dim) in enumerate(names[: (len(names) if (two and conv == "shoc_standard" and sediment) else 2 if two else 1)]):
         depths.append(depth_coord(name, dim, K + k, rng.random() < .5, rng.random() < .5, rng.random() < .7,
                                   rng.random() < .5, same_name_dim=(conv not in DEPTH_NAMES and rng.random() < .5)))
     if twin and conv not in DEPTH_NAMES:
@@ -268,7 +270,7 @@ def _cases(tier: str, seed: int, *, kinds=("norm", "floor")) -> list[dict]:
     n_per = 3 if tier == "quick" else 12
     for conv in W.ALL_CONVS:
         for rep in range(n_per):
-            w = make_world(conv, rng, two=rep % 2 == 1, K=rng.randint(2, 4 if tier == "quick" else 6))
+            w = make_world(conv, rng, two=rep % 2 == 1, K=rng.randint(2, 4 if tier == "quick" else 6), sediment=(rep % 4 == 1))
             ev = []
             if "norm" in kinds:
                 combos = list(itertools.product(opts, opts))
